@@ -259,6 +259,8 @@ func c17Observe(c *Ctx, files map[string]string, mode string, cf c17Conf, tag st
 		f[k] = v
 	}
 	opts := ServerOpts{Tag: tag}
+	events := strings.HasSuffix(mode, "+events")
+	mode = strings.TrimSuffix(mode, "+events")
 	switch mode {
 	case "init":
 		opts.Init = cf.initOptions()
@@ -300,6 +302,33 @@ func c17Observe(c *Ctx, files map[string]string, mode string, cf c17Conf, tag st
 		// the first configuration notification is ignored by design
 		srv.Notify("workspace/didChangeConfiguration", c17AllOn().settings())
 		srv.Notify("workspace/didChangeConfiguration", cf.settings())
+		if err := srv.Fence(); err != nil {
+			ws.Remove()
+			return nil, nil, err
+		}
+	}
+	if events {
+		// with the configuration in effect every Lua file of the workspace changes on disk (a new undefined name at its end)
+		// and one watched-files notification announces them all, the files that the configuration excludes from analysis first
+		var rels []string
+		for rel := range f {
+			if strings.HasSuffix(rel, ".lua") {
+				rels = append(rels, rel)
+			}
+		}
+		sort.Slice(rels, func(i, j int) bool {
+			pi, pj := c17Excluded(rels[i], cf.IgnoreFile), c17Excluded(rels[j], cf.IgnoreFile)
+			if pi != pj {
+				return pi
+			}
+			return rels[i] < rels[j]
+		})
+		var chs []interface{}
+		for _, rel := range rels {
+			ws.Write(rel, f[rel]+"\nprint(c17NameThatAppearsWithTheEvent)\n")
+			chs = append(chs, map[string]interface{}{"uri": ws.URI(rel), "type": 2})
+		}
+		srv.Notify("workspace/didChangeWatchedFiles", map[string]interface{}{"changes": chs})
 		if err := srv.Fence(); err != nil {
 			ws.Remove()
 			return nil, nil, err
@@ -421,7 +450,7 @@ func runC17(c *Ctx) {
 	}
 	// baselines per delivery mode
 	base := map[string]c17View{}
-	for _, mode := range []string{"init", "change", "json"} {
+	for _, mode := range []string{"init", "change", "json", "init+events"} {
 		v, ws, err := c17Observe(c, zoo, mode, all, "c17base"+mode)
 		if err != nil {
 			c.Inconclusive("baseline run failed: " + err.Error())
@@ -464,6 +493,9 @@ func runC17(c *Ctx) {
 		}
 		if len(jobs)%4 == 1 {
 			jobs = append(jobs, job{cf, "change-from-rules"})
+		}
+		if len(jobs)%3 == 1 || (cf.IgnoreFile != nil && len(jobs)%2 == 0) {
+			jobs = append(jobs, job{cf, "init+events"})
 		}
 		if len(cf.IgnoreErr) != 1 || (cf.IgnoreErr[0] != "(" && cf.IgnoreErr[0] != "[" && cf.IgnoreErr[0] != "*") {
 			jobs = append(jobs, job{cf, "json"})
